@@ -147,6 +147,49 @@ def ascii_text(rng):
     return t
 
 
+MC_CFG = ("CONSTANTS MaxLen = %d\n Widths = {%s}\n Canary = %s\n Shard = %d\n NShards = %d\n"
+          "INIT Init\nNEXT Next\nINVARIANT Report\nCHECK_DEADLOCK FALSE\n")
+
+
+def design_level(chk):
+    """CommentMC.tla: TLC enumerates every comment text over {a, b, space, tab, newline} up to MaxLen x widths x ten
+    placements and checks Preserved / Inside / Inert on the text the pipeline model produces."""
+    from concurrent.futures import ThreadPoolExecutor
+    q = chk.tier == 'quick'
+    maxlen, widths = (3, '1, 6, 12, 40') if q else (4, '1, 4, 8, 12, 20, 40')
+    n = common.NCPU
+
+    def one(args):
+        name, ml, ws, canary, shard, nsh = args
+        wd = os.path.join(chk.workdir, 'commentmc', '%s%02d' % (name, shard))
+        return common.run_tlc('CommentMC', MC_CFG % (ml, ws, canary, shard, nsh), wd, workers=1, heap='2g')
+    jobs = [('mc', maxlen, widths, 'FALSE', i, n) for i in range(n)] + [('canary', 2, '1, 12', 'TRUE', 0, 1)]
+    with ThreadPoolExecutor(max_workers=n) as ex:
+        res = list(ex.map(one, jobs))
+    states = 0
+    nbad = 0
+    for job, r in zip(jobs, res):
+        if not r.ok:
+            raise common.MachineryError('CommentMC failed:\n' + '\n'.join(r.out.splitlines()[-30:]))
+        chk.add_tlc(r)
+        bad = r.lines('BAD')
+        if job[0] == 'canary':
+            if not bad:
+                chk.machinery_error('CommentMC canary (first # deleted from every output) reported nothing')
+            chk.cov['canaries_total'] = chk.cov.get('canaries_total', 0) + 1
+            chk.cov['canaries_rejected'] = chk.cov.get('canaries_rejected', 0) + (1 if bad else 0)
+            continue
+        states += r.distinct
+        for line in bad:
+            nbad += 1
+            # the model breaks a comment clause: a defect of the design if the code agrees with the model (the
+            # validation below then rejects the same placement), drift otherwise
+            if nbad <= 10:
+                chk.drifted('CommentMC: the pipeline model violates a comment clause: %s' % line[:300])
+    chk.cov['comment_model_cases'] = states
+    chk.stage('tlc.model-check CommentMC (Preserved / Inside / Inert on the pipeline model)', cases=states, bad=nbad)
+
+
 def words_of_text(t):
     return t.split()
 
@@ -154,6 +197,7 @@ def words_of_text(t):
 def check_c09(chk, args):
     q = chk.tier == 'quick'
     rng = chk.rng
+    design_level(chk)
     bound = []
     cases = []
     meta = {}
@@ -221,7 +265,7 @@ def check_c09(chk, args):
                              min_per_shard=300, heap='2g')
     chk.add_model(st)
     acc = v['ACCEPT']
-    chk.cov['canaries_total'] = len(can)
+    chk.cov['canaries_total'] = chk.cov.get('canaries_total', 0) + len(can)
     for k in can:
         if k['id'] in acc:
             chk.machinery_error('canary accepted (a comment word went missing)')
